@@ -654,3 +654,18 @@ twin("c06-twin-menu-port-ifelse", "C06", (R1436, "        defaultport = self.ser
 fault("c05-wap-prefix-no-boundary", "C05", "R05f", (WAP, '        if self.requestparts[1] == waptop or self.requestparts[1].startswith(\n            (waptop + "/", waptop + "?")\n        ):', "        if self.requestparts[1].startswith(waptop):"))
 fault("c05-wap-prefix-not-stripped", "C05", "R05f", (WAP, "            self.requestparts[1] = self.requestparts[1][len(waptop) :]\n", ""))
 twin("c05-twin-wap-prefix-partition", "C05", (WAP, '        if self.requestparts[1] == waptop or self.requestparts[1].startswith(\n            (waptop + "/", waptop + "?")\n        ):', '        rest = self.requestparts[1][len(waptop) :]\n        if self.requestparts[1].startswith(waptop) and rest[:1] in ("", "/", "?"):'))
+HBASE = "pygopherd/handlers/base.py"
+fault("c07-listdir-normalised", "C07", "R07h", (HBASE, "        return [os.fsdecode(filename) for filename in files]", "        return [os.fsdecode(filename).lower() for filename in files]"))
+twin("c07-twin-listdir-sorted", "C07", (HBASE, "        return [os.fsdecode(filename) for filename in files]", "        return sorted(os.fsdecode(f) for f in files)"))
+fault("c05-http-urlparse-params", "C05", "R05g", (HTTP, '        splitted = self.requestparts[1].split("?")\n        self.selector = splitted[0]\n', '        splitted = self.requestparts[1].split("?")\n        self.selector = urllib.parse.urlparse(self.requestparts[1]).path\n'))
+fault("c04-http-urlparse-params", "C04", "R04g", (HTTP, '        splitted = self.requestparts[1].split("?")\n        self.selector = splitted[0]\n', '        splitted = self.requestparts[1].split("?")\n        self.selector = urllib.parse.urlparse(self.requestparts[1]).path\n'))
+fault("c05-spartan-cut-at-hash", "C05", "R05g", (SPAR, '        self.selector = urllib.parse.unquote(path, errors="surrogateescape")', '        self.selector = urllib.parse.unquote(path, errors="surrogateescape").split("#")[0]'))
+twin("c05-twin-http-partition", "C05", (HTTP, '        splitted = self.requestparts[1].split("?")\n        self.selector = splitted[0]\n', '        splitted = self.requestparts[1].split("?")\n        self.selector = self.requestparts[1].partition("?")[0]\n'))
+fault("c02-headers-stripped", "C02", "R02g", (HTTP, "                self.httpheaders[splitline[0].lower()] = splitline[1]", "                self.httpheaders[splitline[0].lower()] = splitline[1].strip()"))
+fault("c02-wap-accept-anchored", "C02", "R02g", (WAP, 're.search("[, ]text/vnd.wap.wml", self.httpheaders["accept"])', 're.search("^text/vnd.wap.wml", self.httpheaders["accept"])'))
+twin("c02-twin-headers-stripped-regex-adapted", "C02", (HTTP, "                self.httpheaders[splitline[0].lower()] = splitline[1]", "                self.httpheaders[splitline[0].lower()] = splitline[1].strip()"),
+     (WAP, 're.search("[, ]text/vnd.wap.wml", self.httpheaders["accept"])', 're.search("(^|[, ])text/vnd.wap.wml", self.httpheaders["accept"])'))
+fault("c03-maildir-message-creates", "C03", "R03e", (MBOX, "        return Maildir(self.getfspath(), create=False)", "        return Maildir(self.getfspath())"))
+fault("c08-extstrip-after-cap", "C08", "R08e", (UMN, "        except IOError:  # Ignore no capfile situation\n            pass\n", "        except IOError:  # Ignore no capfile situation\n            pass\n        if fileentry.getname():\n            fileentry.setname(fileentry.getname().rsplit('.', 1)[0])\n"))
+fault("c05-mail-message-side-filtered", "C05", "R05d", (MBOX, "            mailbox = iter(self.openmailbox())", "            mailbox = (m for m in self.openmailbox() if m.get('X-Status') != 'D')"))
+twin("c05-twin-mail-no-iter", "C05", (MBOX, "            mailbox = iter(self.openmailbox())", "            box = self.openmailbox()\n            mailbox = iter(box)"))
